@@ -19,6 +19,16 @@ from wikitextprocessor.parser import (
 )
 
 ctx = Wtp(quiet=True, quiet_output=True)
+
+
+def reset_begline(c):
+    """representation invariant at a token boundary outside argument re-parsing: beginning-of-line syntax enabled"""
+    c.begline_enabled = True
+    try:
+        c.begline_disable_counter = 0
+    except AttributeError:  # the counter slot may have been refactored away
+        pass
+
 K = NodeKind
 
 
@@ -30,8 +40,7 @@ def build(has_row: bool, h0: bool, h1: bool, n_closed: int, open_kind: int, capt
     ctx.pre_parse = False
     ctx.linenum = 5
     ctx.suppress_special = False
-    ctx.begline_enabled = True
-    ctx.begline_disable_counter = 0
+    reset_begline(ctx)
     ctx.beginning_of_line = False
     ctx.wsp_beginning_of_line = False
     table = _parser_push(ctx, K.TABLE)
@@ -214,8 +223,7 @@ def _fresh_table():
     ctx.pre_parse = False
     ctx.linenum = 5
     ctx.suppress_special = False
-    ctx.begline_enabled = True
-    ctx.begline_disable_counter = 0
+    reset_begline(ctx)
     ctx.beginning_of_line = False
     ctx.wsp_beginning_of_line = False
     return root, _parser_push(ctx, K.TABLE)
@@ -286,8 +294,7 @@ def vbar_args_step(kind_i: int, n_prev: int, txt: str) -> bool:
     ctx.pre_parse = False
     ctx.linenum = 2
     ctx.suppress_special = False
-    ctx.begline_enabled = True
-    ctx.begline_disable_counter = 0
+    reset_begline(ctx)
     ctx.beginning_of_line = False
     ctx.wsp_beginning_of_line = False
     node = _parser_push(ctx, kinds[kind_i])
@@ -312,3 +319,46 @@ def replay_vbar_args(kind_i, n_prev, txt):
     want = args if kind_i != 3 else None
     bad = want is not None and flat != want
     return ("parse(" + repr(doc) + ")", bad, f"argument list {flat}, written {want}")
+
+
+# ---------------------------------------------------------------- nesting of `with ctx.begline_disabled`
+def begline_nesting(o0: bool, o1: bool, o2: bool, o3: bool, o4: bool, o5: bool) -> bool:
+    """magic_fn re-parses every argument list inside `with ctx.begline_disabled:`; argument lists nest (a link inside a
+    template argument ...).  For every well-nested sequence of enters/exits: beginning-of-line syntax is enabled exactly when
+    no `with` block is open."""
+    reset_begline(ctx)
+    mgr = ctx.begline_disabled
+    depth = 0
+    for enter in (o0, o1, o2, o3, o4, o5):
+        if enter:
+            mgr.__enter__()
+            depth += 1
+        elif depth > 0:
+            mgr.__exit__(None, None, None)
+            depth -= 1
+        if ctx.begline_enabled != (depth == 0):
+            return False
+    return True
+
+
+def replay_begline_nesting(o0, o1, o2, o3, o4, o5):
+    w = Wtp(quiet=True, quiet_output=True)
+    w.start_page("T")
+    bad = []
+    for doc, kinds_forbidden in [("{{t|[[a|b]]\n x|c}}", ("PREFORMATTED", "LIST")), ("{{t|{{u|a}}|q\n# y}}", ("LIST", "PREFORMATTED")), ("[[a|{{u|a}}\n y]]", ("PREFORMATTED",))]:
+        root = w.parse(doc)
+        found = []
+
+        def walk(n):
+            if isinstance(n, WikiNode):
+                found.append(n.kind.name)
+                for c in n.children:
+                    walk(c)
+                for a in n.largs:
+                    for c in a:
+                        walk(c)
+
+        walk(root)
+        if any(k in found for k in kinds_forbidden):
+            bad.append((doc, [k for k in found if k in kinds_forbidden]))
+    return ("parse(" + repr(bad[0][0] if bad else "{{t|[[a|b]]\n x|c}}") + ")", bool(bad), f"beginning-of-line syntax is interpreted inside an argument list after a nested construct: {bad[:2]}")
